@@ -762,7 +762,9 @@ def _char_runs(text, ch):
     return out
 
 
-def unitcand_run(idx, cls, fn, owner, source, prefix_chars, suffix_chars, er_cls, mr_cls, cur_type):
+def unitcand_run(idx, cls, fn, owner, source, prefix_chars, suffix_chars, er_cls, mr_cls, cur_type, separate=None):
+    """separate: None (the separate-unit regex matches nothing) or callable(source) -> [(start, end)] spans the stub of
+    self.separate_regex reports through finditer (used by C05.one-entity)"""
     never = {'finditer': native(lambda it, a, k: []), 'search': native(lambda it, a, k: None), 'match': native(lambda it, a, k: None)}
 
     def mk_never():
@@ -794,8 +796,18 @@ def unitcand_run(idx, cls, fn, owner, source, prefix_chars, suffix_chars, er_cls
                   'ambiguity_filters_dict': None, 'dimension_ambiguity_filters_dict': None,
                   'expand_half_suffix': native(lambda it2, a, k: None)}, 'config')
     M = '_NumberWithUnitExtractor__'
+    sep = mk_never()
+    if separate is not None:
+        def sep_finditer(it2, a, k):
+            src, out = a[0], []
+            for s0, e0 in separate(src):
+                out.append(Native({'group': native(lambda it3, a3, k3, t=src[s0:e0]: t),
+                                   'start': native(lambda it3, a3, k3, v=s0: v), 'end': native(lambda it3, a3, k3, v=e0: v),
+                                   'span': native(lambda it3, a3, k3, v=(s0, e0): v)}, 'match'))
+            return out
+        sep = Native({'finditer': native(sep_finditer), 'search': never['search'], 'match': never['match']}, 'pattern<separate units>')
     selfo = Obj(cls, {'config': cfg, M + 'max_prefix_match_len': 3, M + 'prefix_matcher': finder(prefix_chars),
-                      M + 'suffix_matcher': finder(suffix_chars), M + 'separate_regex': mk_never()})
+                      M + 'suffix_matcher': finder(suffix_chars), M + 'separate_regex': sep})
     if owner is None:
         out = it.call_function(FuncRef(cls.mod, fn, None), [selfo, source], {})
     else:
